@@ -620,6 +620,11 @@ func TestPropIntegrationXid(t *testing.T) {
 			rapid.StringMatching(`[!-~]{1,40}`),
 		).Draw(rt, "xid")
 		mode := rapid.SampledFrom([]string{"grpc", "gin", "dubbo", "fresh"}).Draw(rt, "mode")
+		if (mode == "dubbo" || mode == "fresh") && rapid.IntRange(0, 4).Draw(rt, "blank") == 0 {
+			// blanks inside and around the xid: attachments and hand-built contexts carry any string as it is
+			// (HTTP-based transports strip surrounding blanks themselves, so gin and grpc are left out)
+			xid = rapid.SampledFrom([]string{" " + xid, xid + " ", xid + "\t", "a b" + xid, " " + xid + "\n"}).Draw(rt, "padded")
+		}
 		c := Case{RootXid: xid, Root: &Node{Prop: 3, Mode: "root", Children: []*Node{{
 			Prop: rapid.SampledFrom([]int{0, 3, 5}).Draw(rt, "calleeProp"), Mode: mode, Spelling: rapid.IntRange(0, 11).Draw(rt, "spelling"),
 			Fail: rapid.Bool().Draw(rt, "calleeFails")}}}}
